@@ -309,6 +309,17 @@ Definition CL_scheme : N := 10.
 Definition CL_authority : N := 11.
 Definition CL_components : N := 12.
 
+(* the shape of a URL reference as RFC 3986 splits it: scheme, authority, number of path segments,
+   number of query parameters, presence of a fragment.  Data that "stays inside its component" never
+   changes the shape (compare the rendering with inert data and the one with hostile data) *)
+Definition url_shape (s : bytes) : option bytes * option bytes * nat * nat * bool :=
+  (uri_scheme s, uri_authority s, length (segments (uri_path s)),
+   match uri_query s with Some q => length (split_on 38 q) | None => O end, has_fragment s).
+Definition same_url_shape (a b : bytes) : bool :=
+  let '(s1, a1, p1, q1, f1) := url_shape a in
+  let '(s2, a2, p2, q2, f2) := url_shape b in
+  opt_bytes_eqb s1 s2 && opt_bytes_eqb a1 a2 && Nat.eqb p1 p2 && Nat.eqb q1 q2 && Bool.eqb f1 f2.
+
 (* failing clauses with the finding that covers the case (0 = none, 16 = D16, 10 = D10).
    cls: url_class; p: static prefix as written; v: the interpolated data as a string;
    accepted: the template passed the analysis; out: Some bytes when the execution succeeded *)
